@@ -12,7 +12,7 @@ structure CombCorr (D : NetD) (as topo : List (LHS × Expr)) (net : String → O
   perm : as.Perm topo
   acyc : Acyc topo
   /-- every assign is justified by every in-range valuation at which the combinational leaves sit at their fixpoint -/
-  just : ∀ V, CombFix D V → (∀ k, V k < 2 ^ D.wd k) → ∀ a, a ∈ as → Just net D.wd V a
+  just : ∀ V, CombFix D V → (∀ k, V k < 2 ^ D.wd k) → D.good V → ∀ a, a ∈ as → Just net D.wd V a
   /-- a name no assign drives denotes a net no combinational leaf drives -/
   undriven : ∀ n k, net n = some k → n ∉ as.map tgt → ∀ c, c ∈ D.combs → ∀ o, o ∈ c.outs.map (·.1) → o ≠ k
 
@@ -32,6 +32,7 @@ theorem comb_corr {D : NetD} (hD : D.SchedOK) {net : String → Option Nat} {as 
     (C : CombCorr D as topo net) (s : State Int) (hs : C06.Inv D.design s)
     (r0 : Rd) (hI : InfoOK D as net r0)
     (h0 : ∀ n k, net n = some k → n ∉ as.map tgt → r0.val n = ⟨D.wd k, s.val k, true⟩)
+    (hg : D.good (propagateAll D.design s).val)
     (j : Nat) (hj : as.length ≤ j) :
     Rel net D.wd (propagateAll D.design s).val (Net.iter (passA as) j r0) := by
   rw [iter_eq_topo C.perm C.acyc r0 hI.lhs j hj]
@@ -49,6 +50,6 @@ theorem comb_corr {D : NetD} (hD : D.SchedOK) {net : String → Option Nat} {as 
     rw [passA_val_other topo r0 hokt n (fun b hb e => hmem (List.mem_map.mpr ⟨b, hb, e.symm⟩)), h0 n k hn hmem',
       propagate_val_other D s k (C.undriven n k hn hmem')]
   · intro a ha
-    exact C.just _ (propagate_combfix D hD s) hV a (C.perm.mem_iff.mpr ha)
+    exact C.just _ (propagate_combfix D hD s) hV hg a (C.perm.mem_iff.mpr ha)
 
 end FlatM
